@@ -5,6 +5,10 @@ package api
 import (
 	"bytes"
 	"encoding/json"
+	"errors"
+	"fmt"
+	"google.golang.org/grpc/codes"
+	"google.golang.org/grpc/status"
 	"io"
 	"net/http"
 	"net/http/httptest"
@@ -23,11 +27,12 @@ import (
 // real loopback http server, the observation what an http client receives.
 
 type verifC02Action struct {
-	A string `json:"a"` // set | add | del | wh | w | panic
-	K int    `json:"k"`
-	V int    `json:"v"`
-	C int    `json:"c"`
-	B string `json:"b"`
+	A  string `json:"a"` // set | add | del | wh | w | panic
+	K  int    `json:"k"`
+	V  int    `json:"v"`
+	C  int    `json:"c"`
+	B  string `json:"b"`
+	PV string `json:"pv"` // panic: kind of the panic value
 }
 
 type verifC02Case struct {
@@ -87,6 +92,47 @@ func verifC02Snap(h http.Header) []verifC02Hdr {
 	return out
 }
 
+// verifC02Err is a custom error type; a nil *verifC02Err in an interface is a non-nil panic value.
+type verifC02Err struct{ msg string }
+
+func (e *verifC02Err) Error() string { return e.msg }
+
+// verifC02Panic panics with a value of the asked kind. The runtime errors are raised by really faulty code, not
+// by panic().
+func verifC02Panic(pv string) {
+	switch pv {
+	case "", "string":
+		panic("verif: scripted panic")
+	case "error":
+		panic(errors.New("verif: scripted error panic"))
+	case "wrapped":
+		panic(fmt.Errorf("verif: wrapped: %w", io.ErrUnexpectedEOF))
+	case "nilmap":
+		var m map[string]int
+		m["k"] = 1 // assignment to entry in nil map
+	case "nilptr":
+		var p *verifC02Err
+		_ = p.msg // nil pointer dereference
+	case "index":
+		s := []int{}
+		i := len(pv)
+		_ = s[i] // index out of range
+	case "status":
+		panic(status.Error(codes.NotFound, "verif: status carried by a panic value"))
+	case "abort":
+		panic(http.ErrAbortHandler)
+	case "custom":
+		panic(struct{ A, B int }{1, 2})
+	case "typednil":
+		var e *verifC02Err
+		panic(error(e))
+	case "nil":
+		var v any
+		panic(v) // panic(nil): go.mod's go 1.19 keeps the old meaning (recover() returns nil)
+	}
+	panic("verif: unknown panic value kind " + pv)
+}
+
 func verifC02Do(w http.ResponseWriter, a verifC02Action) string {
 	switch a.A {
 	case "set":
@@ -112,7 +158,7 @@ func verifC02Do(w http.ResponseWriter, a verifC02Action) string {
 			return "err:" + err.Error()
 		}
 	case "panic":
-		panic("verif: scripted panic")
+		verifC02Panic(a.PV)
 	}
 	panic("verif: unknown action " + a.A)
 }
